@@ -32,7 +32,7 @@ theorem succ_facts {s s' : St} {t : Tid} {a : Act Op} (hi : Inv s) (hs : step s 
     s.succ ≤ s'.succ ∧
     (s.flag = true → s'.flag = true ∨ s'.succ = s.succ + 1) ∧
     s'.sigFirst = s.sigFirst := by
-  obtain ⟨h1, h2, h3, h4, h5, h6, h7⟩ := hi
+  obtain ⟨h1, h2, h3, h4, h5, h6, h7, h8⟩ := hi
   cases a with
   | tick q => simp [step] at hs; subst hs; refine ⟨?_, ?_, ?_, ?_, ?_, ?_, ?_, ?_, ?_⟩ <;> intros <;> simp_all
   | call op =>
